@@ -170,10 +170,10 @@ PROPS = {
         partial=["refusal theorems (Props/C02b: foreign client / different redirect_uri answered invalid_grant, expired code invalid_request, a refused redeem changes nothing but the mint counter and leaves every later request with the same answer) carry the side condition OidcSessionOk, proved to hold in every reachable state (reachable_sessionOk); witness malformed_oidc_session_burns_code shows it is needed: the OIDC companion handler runs after the code handler has committed", "fault-free histories (faults: C18)"],
     ),
     "C03": dict(
-        modules=["Fosite.Props.C03", "Fosite.Props.C03b", "Fosite.Props.C10b"],
+        modules=["Fosite.Props.C03", "Fosite.Props.C03b", "Fosite.Props.C03c", "Fosite.Props.C10b"],
         drivers=[dict(name="hist", kind="hist")],
         rule=HIST_RULE + "; C03 bias: sequences of attempts on one code drawn from {wrong, malformed, absent, other-method, right} verifier",
-        partial=["C03b.pkce_binding_full proves the full statement (C03.PkceBindingFull) for codes issued by `authorize`; the invariance machinery covers `authorizePar` too but the linking lemma for pushed requests is not written", "fault-free histories (a fault between the PKCE check and the code invalidation is C18's subject; the PKCE session is consumed only after a successful exchange: fix e4cc3e4)"],
+        partial=["C03b.pkce_binding_full proves the full statement (C03.PkceBindingFull) for codes issued by `authorize`, C03c.pkce_binding_full_both_endpoints for codes issued through a pushed request as well (challenge and method of the PUSHED request); model limit: PKCE / nonce parameters sent NEXT TO a request_uri whose push did not carry them are ignored by the model's validation, while the Go code reads them from the merged form (replayed: a code then becomes bound to the query-supplied challenge) — no harness operation sends them, RFC 9126 clients do not", "fault-free histories (a fault between the PKCE check and the code invalidation is C18's subject; the PKCE session is consumed only after a successful exchange: fix e4cc3e4)"],
     ),
     "C04": dict(
         modules=["Fosite.Props.C04", "Fosite.Props.C04b", "Fosite.Props.StoreAtomic"],
@@ -182,10 +182,10 @@ PROPS = {
         partial=["family clauses (Props/C04b: rotation leaves only the new pair, reuse kills the grant and only that grant, for good) are over fault-free histories; a storage fault inside handleRefreshTokenReuse answers a storage error instead (C18)"],
     ),
     "C05": dict(
-        modules=["Fosite.Props.C05", "Fosite.Props.C05b"],
+        modules=["Fosite.Props.C05", "Fosite.Props.C05b", "Fosite.Props.C05c"],
         drivers=[dict(name="hist", kind="hist")],
         rule=HIST_RULE,
-        partial=["issuance rule: code flow (C05), device / password / refresh / client_credentials flows and the history-level theorem every_refresh_token_in_a_history_obeys_the_rule (C05b) speak of refresh tokens RETURNED in responses; a record-level statement (no createRefresh outside the rule on error paths) is not stated", "observation (not demanded by the statement): the password flow issues a refresh token to a client without the refresh_token grant type, which the refresh flow then refuses (C05b.password_flow_ignores_refresh_grant_type)"],
+        partial=["issuance rule: code flow (C05), device / password / refresh / client_credentials flows and the history-level theorem every_refresh_token_in_a_history_obeys_the_rule (C05b) speak of refresh tokens RETURNED in responses; record level (Props/C05c): on every path of every endpoint program and under every fault plan, every createRefresh call is issued only under the rule of its flow (code flow: the grant-type half is read off the client snapshot stored with the code)", "observation (not demanded by the statement): the password flow issues a refresh token to a client without the refresh_token grant type, which the refresh flow then refuses (C05b.password_flow_ignores_refresh_grant_type)"],
     ),
     "C06": dict(
         modules=["Fosite.Props.C06", "Fosite.Props.C06b"],
@@ -222,12 +222,12 @@ PROPS = {
                  "form_post with a custom-scheme redirect URI: html/template rewrites the form action (recorded known finding authz:formpost-custom-scheme)"],
     ),
     "C12": dict(
-        modules=["Fosite.Props.C12", "Fosite.Props.C12b", "Fosite.Props.C12c"],
+        modules=["Fosite.Props.C12", "Fosite.Props.C12b", "Fosite.Props.C12c", "Fosite.Props.C12d"],
         drivers=[dict(name="scope", kind="pure"), dict(name="audience", kind="pure"), dict(name="hist", kind="hist"), dict(name="assertion", kind="pure")],
         rule="D4 pure drivers. scope: every (strategy, matcher list, needle) over the segment alphabet {a,b,*,''} up to 3 (quick) / 4 (thorough) segments with one matcher, sampled/exhaustive pairs of matchers, plus seeded random long dotted names biased to near-matches; non-trivial = accepted, or some matcher agrees with the needle on its first segment. audience: every entry carries the components the real net/url.Parse produced; bounded-exhaustive single whitelisted x single requested URL over schemes x hosts x path shapes ('', '/', '/a', '/a/', '/a/b', '/ab', '/a//', '//a', ...), same-origin path pairs with query/fragment/userinfo decorations, unparsable strings and non-URL audiences in every list position, pairs of lists, seeded random lists with 75% near-match mutations; non-trivial = accepted, or a parse error is involved, or some pair agrees on scheme and host so the path rule decides (default) / is equal up to trailing slashes and case (exact). distinct = distinct op lines",
         assumptions=["scope strings are compared as sequences of Unicode code points in the model and bytes in Go; the scope generators use ASCII only",
                      "audience strings are transported hex-encoded byte by byte, so byte semantics are exact; net/url.Parse is trusted: the model takes its output (ok/scheme/host/path) as input and the harness re-derives it from the raw string on every execution, including replay"],
-        partial=["flow confinement (Props/C12c): acceptance => coverage for authorize (code / implicit / hybrid), PAR push, client_credentials, password, device authorization; every Req handed to createCode / createAccess / createRefresh on every path carries exactly the de-duplicated grant (minted_requests_carry_exactly_the_grant); JWT-bearer grants are not in the history model (pure assertion driver, C15); the invariant tying a stored PAR record to its push-time check across a history is not proved (the two one-step halves are)", "observations under the readings chosen: a pushed request is checked against the registration at push time and not again at the authorization endpoint (C12c.pushed_request_outlives_registration_narrowing, replayed on the Go code: accepted, while the same request sent directly is refused invalid_scope; the window is the request_uri lifetime); what the application grants is not compared with what was requested (C12c.consent_may_grant_beyond_the_request)"],
+        partial=["flow confinement (Props/C12c): acceptance => coverage for authorize (code / implicit / hybrid), PAR push, client_credentials, password, device authorization; every Req handed to createCode / createAccess / createRefresh on every path carries exactly the de-duplicated grant (minted_requests_carry_exactly_the_grant); JWT-bearer grants are not in the history model (pure assertion driver, C15); over histories (Props/C12d): every stored pushed request was covered by the pushing client's registration under the strategies in force when it was pushed, and authorizePar works on such a record (re-checking scopes — for code / token also audiences — against the stored snapshot under the current strategies)", "observations under the readings chosen: a pushed request is checked against the registration at push time and not again at the authorization endpoint (C12c.pushed_request_outlives_registration_narrowing, replayed on the Go code: accepted, while the same request sent directly is refused invalid_scope; the window is the request_uri lifetime); what the application grants is not compared with what was requested (C12c.consent_may_grant_beyond_the_request)"],
     ),
     "C16": dict(
         modules=["Fosite.Props.C16", "Fosite.Props.C16b", "Fosite.Props.StoreAtomic"],
@@ -302,13 +302,13 @@ PROPS = {
                  "concurrency theorems are over three atomic steps per presentation (lookup + pure checks, ClientAssertionJWTValid, SetClientAssertionJWT) with an arbitrary scheduler; the Go memory model is not modelled"],
     ),
     "C18": dict(
-        modules=["Fosite.Props.C18"],
+        modules=["Fosite.Props.C18", "Fosite.Props.C18b"],
         drivers=[dict(name="hist", kind="hist")],
         rule=HIST_RULE + " — D2 fault injection: `fault ,<i>:<kind>,…` installs a fault plan for the next operation (storage-call index of that operation -> generic error / ErrNotFound / ErrSerializationFailure; begin, commit and rollback are storage calls like any other); cfg tx=1 puts the recording store behind storage.Transactional with real rollback (BeginTX snapshots every table of the reference store, Rollback restores it). C18 bias: every endpoint operation is either swept (the same request repeated with a single fault at call index 0,1,2,… until it goes through, optionally with a second fault 1-2 calls later to hit the rollback / commit / clean-up), or preceded by one or two random faults and followed by a fault-free retry, or run fault-free; two thirds of the histories are transactional. Compared with the model: outcome, the full storage-call log including the injected results, and the store dump after every operation",
         assumptions=["faults are storage calls answering with an error; the store's tables are not corrupted by a failed call (exec_err_store in the model, the wrapper returns before touching the reference store)",
                      "the transactional store of the harness is the reference store with snapshot/restore; other isolation levels are not modelled",
                      "an injected ErrNotFound at GetPKCERequestSession / GetOpenIDConnectSession / DeletePKCERequestSession is an ordinary lookup answer for the handlers (Unexpected excludes exactly these three call sites)"],
-        partial=["retry_after_rollback_partial: after a rolled-back failure the state equals the state before the request except for the mint counter and the request runs the same program; equivalence of the retry's outcome up to renaming of fresh signatures is not a theorem (the driver's retries check it on traces)",
+        partial=["retry (Props/C18b): for every operation, run configuration, well-formed state and k, stepWith from the state with the mint counter advanced by k is the renamed stepWith (retry_equivalent_up_to_renaming); hence after a rolled-back attempt the same request, and every later history, gives the renamed state, answers and logs (retry_after_rollback, future_after_rollback_is_renamed); the renaming moves numeric names only, and an operation must not present a name the first attempt has not minted yet (witnessed)",
                  "serialization conflicts are mapped to a retryable answer only by the refresh flow (code and device flows answer server_error): stated as evaluated examples, not demanded by the monitor",
                  "failures after commit (OIDC / PKCE session clean-up) refuse the request although the grant is applied; password, hybrid-authorize and PAR-use flows run without a transaction: fail-closed only (Post false)"],
     ),
@@ -354,8 +354,14 @@ def run_lock_facts(R, pid, d, work, seed, tier):
     res["samples"] = [{"method": n, "events": e[:200]} for n, e in methods[:4]] + [{"report": l} for l in lines[:8]]
     hist = {}
     only = d.get("methods")
+    # methods whose lock operations sit in nested blocks / closures the extractor cannot put into one event
+    # sequence: the other reports about such a method are not reliable, and the SHAPE report itself says that
+    # the atomicity theorems no longer speak about it — an obligation that is not discharged, not a witness
+    shaped = set(l.split(" ")[1] for l in lines if l.startswith("SHAPE ") and len(l.split(" ")) > 1)
     for l in lines:
         f = l.split(" ")
+        if len(f) > 1 and f[1] in shaped and f[0] != "SHAPE":
+            continue
         hist[f[0]] = hist.get(f[0], 0) + 1
         sig = None
         if only is not None and (len(f) < 2 or f[1] not in only):
@@ -372,7 +378,7 @@ def run_lock_facts(R, pid, d, work, seed, tier):
             sig = "C19:lock-order-cycle"
         if sig:
             sig = pid + sig[3:] if only is not None else sig
-            res["monitor_hits"].append({"signature": sig, "driver": "lockfacts", "ops": [l], "impl": [l],
+            res["monitor_hits"].append({"signature": sig, "driver": "lockfacts", "ops": [l], "impl": [l], "unproved": f[0] == "SHAPE",
                                         "what": "lock-discipline checker over the regenerated source facts reports: " + l})
     res["histogram"] = hist
     res["traces"] = 0
